@@ -5,12 +5,16 @@ history-only specification on the implementation's own observations (monitor).
 cfg:  window=<ns> buckets=<n> threshold=<n> t0=<ns> disabled=<0/1> group=<0/1>
 ops:  t+ <ns>                                   => now=<ns>
       allow k=<key> over=<0/1> cpu=<n> p=<id>   => ok | overloaded ; flying=<n> avg=<n/d> mp=<n> rt=<n/d> mf=<n/d>
-                                                   ot=<ns> dr=<0/1> cpuok=<0/1>          (p names the promise if admitted)
+                                                   ot=<ns> dr=<0/1> cpuok=<0/1> nan=<0/1> (p names the promise if admitted)
       pass <p> | fail <p>                       => flying=<n> avg=<n/d> | nopromise (p was never admitted) | nop (disabled)
 `over` is what the scripted systemOverloadChecker returns, `cpu` what stat.CpuUsage() is set to for
 overloadFactor (cpuok=0: the background CPU sampler overwrote it during the call — the factor is then unknown
 and the implementation's verdict is followed).  With group=1 the shedder of key k is created by
 ShedderGroup.GetShedder at its first use.
+nan=1: the implementation's overloadFactor() is NaN for this call (threshold = cpuMax = cpu and the guard of
+fixes/C02-threshold-at-cpumax-nan.patch is absent): highThru is false whatever the load, the implementation's
+verdict is followed and the call is counted as `factor-nan-unguarded` (finding C02-threshold-at-cpumax-nan; the Tie
+accepts both forms of overloadFactor until the patch is applied). nan=1 anywhere else is a mismatch.
 -/
 import GoZero.Base.Trace
 import GoZero.C02.Spec
@@ -115,7 +119,19 @@ def runSection (r : Report) (s : Section) : Report := Id.run do
           let sh := inst.sh
           -- monitor: the property on the implementation's verdict, from the history alone
           let v : Verdict := if implShed then .overloaded else .admitted
-          if !inst.dirty then
+          let nan := kvNat l.obs "nan" 0 = 1
+          if nan then
+            r := r.addCover "factor-nan-unguarded"
+            if !(sh.cpuThreshold = cpuMax ∧ cpu = cpuMax) then
+              r := r.mismatch s.idx l.idx "nan=0 (the factor is a number for this threshold and cpu)" (joinSp l.obs)
+            if implShed then
+              r := r.mismatch s.idx l.idx "ok (nothing exceeds a NaN limit)" (joinSp l.obs)
+            if !inst.dirty && (Spec.checkAllow inst.wc inst.h over v).isSome then
+              r := r.addCover "finding-threshold-at-cpumax-nan:admitted-although-over-capacity"
+          if sh.cpuThreshold = cpuMax then r := r.addCover "threshold-at-cpumax"
+          if sh.cpuThreshold > cpuMax then r := r.addCover "threshold-above-cpumax"
+          if cpu > cpuMax then r := r.addCover "cpu-above-cpumax"
+          if !inst.dirty && !nan then
             match Spec.checkAllow inst.wc inst.h over v with
             | some msg => r := r.violation s.idx l.idx msg
             | none => pure ()
@@ -126,7 +142,7 @@ def runSection (r : Report) (s : Section) : Report := Id.run do
           let gate := sh.gate st.now over
           let boundary := gate && (!cpuok || Spec.near sg.avgFlying lim || Spec.near (sg.flying : Rat) lim)
           let mdrop := sh.shouldDrop st.now over cpu
-          let drop := if boundary then implShed else mdrop
+          let drop := if nan then false else if boundary then implShed else mdrop
           if boundary then r := r.addCover (if cpuok then "boundary-decision" else "cpu-sampler-race")
           let sh' := sh.allowWith st.now over drop
           let mline := allowLine (if drop then .overloaded else .admitted)
